@@ -154,6 +154,14 @@ pub fn collect_reward_ix(
     }
 }
 
+pub fn pick_emissions_k(rng: &mut crate::rng::Rng, k: &Knobs) -> u128 {
+    if k.extreme_rewards && rng.chance(2, 3) {
+        // as large as a fully funded vault allows: 2^64 * u64::MAX / 86400 ~ 2^111.6
+        return (1u128 << (96 + rng.below(15) as u32)) | rng.next_u64() as u128;
+    }
+    pick_emissions(rng)
+}
+
 pub fn pick_emissions(rng: &mut crate::rng::Rng) -> u128 {
     match rng.below(16) {
         0 => 0,
@@ -170,7 +178,7 @@ pub fn pick_emissions(rng: &mut crate::rng::Rng) -> u128 {
 }
 
 /// reward authority (initially the config's reward-emissions super authority)
-pub fn plan_reward_auth(w: &World, _k: &Knobs, actor: &mut Actor, l: &Ledger) -> Vec<(Tx, String)> {
+pub fn plan_reward_auth(w: &World, k: &Knobs, actor: &mut Actor, l: &Ledger) -> Vec<(Tx, String)> {
     use whirlpool::accounts as wa;
     use whirlpool::instruction as wi;
     let rng = &mut actor.rng.clone();
@@ -178,7 +186,7 @@ pub fn plan_reward_auth(w: &World, _k: &Knobs, actor: &mut Actor, l: &Ledger) ->
     let pi = &w.pools[rng.idx(w.pools.len())];
     let Some(pool) = l.data(&pi.keys.whirlpool).and_then(decode::pool) else { return flow };
     let n_init = pool.rewards.iter().filter(|r| r.initialized()).count();
-    let action = if n_init == 0 { 0 } else { rng.below(10) };
+    let action = if n_init == 0 || (k.extreme_rewards && n_init < 3) { 0 } else { rng.below(10) };
     match action {
         0 | 1 if n_init < 3 || rng.chance(1, 6) => {
             // initialize the next reward (or a wrong index)
@@ -224,11 +232,15 @@ pub fn plan_reward_auth(w: &World, _k: &Knobs, actor: &mut Actor, l: &Ledger) ->
             };
             flow.push((Tx { ixs: vec![ixn] }, "initialize_reward".into()));
             // fund the vault (sometimes deliberately too little, sometimes nothing)
-            let amount = match rng.below(8) {
-                0 => 0,
-                1 => rng.log_u64(30),
-                2 => rng.log_u64(62),
-                _ => 1u64 << 61,
+            let amount = if k.extreme_rewards {
+                u64::MAX / 2
+            } else {
+                match rng.below(8) {
+                    0 => 0,
+                    1 => rng.log_u64(30),
+                    2 => rng.log_u64(62),
+                    _ => 1u64 << 61,
+                }
             };
             if amount > 0 {
                 flow.push((
@@ -236,7 +248,7 @@ pub fn plan_reward_auth(w: &World, _k: &Knobs, actor: &mut Actor, l: &Ledger) ->
                     "fund_reward_vault".into(),
                 ));
             }
-            let e = pick_emissions(rng);
+            let e = pick_emissions_k(rng, k);
             flow.push((Tx { ixs: vec![set_emissions_ix(rng, &pi.keys.whirlpool, &actor.wallet, idx, e, &vault)] }, "set_reward_emissions".into()));
             if rng.chance(1, 2) {
                 // one atomic transaction
@@ -249,7 +261,7 @@ pub fn plan_reward_auth(w: &World, _k: &Knobs, actor: &mut Actor, l: &Ledger) ->
             if !cands.is_empty() {
                 let idx = if rng.chance(1, 12) { rng.below(4) as usize } else { cands[rng.idx(cands.len())] };
                 let vault = pool.rewards.get(idx).map(|r| r.vault).unwrap_or_default();
-                let e = pick_emissions(rng);
+                let e = pick_emissions_k(rng, k);
                 flow.push((Tx { ixs: vec![set_emissions_ix(rng, &pi.keys.whirlpool, &actor.wallet, idx as u8, e, &vault)] }, "set_reward_emissions".into()));
             }
         }
